@@ -92,3 +92,12 @@ func ProbeMapRanges(p *an.Prog) {
 		})
 	}
 }
+
+// ProbeCopyLoss lists range-copy lost updates.
+func ProbeCopyLoss(p *an.Prog) {
+	for _, fn := range p.ModFuncs {
+		for _, l := range an.RangeCopyLosses(fn) {
+			fmt.Printf("%s | %s | copy %s of %s: %s\n", p.Position(l.At.Pos()), an.RelName(fn), l.Alloc.Comment, l.Source, l.Kind)
+		}
+	}
+}
